@@ -390,6 +390,65 @@ def stored_values_stream(ctx, rng, count, given=None):
     return bad
 
 
+def atom_roundtrip_stream(ctx, rng, count):
+    """Problems whose constraints contain nonlinear atoms (their epigraph Variables are created while compiling): every Variable that owns a
+    column is listed and valued after the FIRST solve, and the Problem survives a pickle round trip followed by a recompile"""
+    import pickle
+    from collections import Counter
+    import sageopt.coniclifts as cl
+    from sageopt.coniclifts.operators.abs import abs as cl_abs
+    bad = []
+    for t in range(count):
+        n = rng.randint(2, 3)
+        x = cl.Variable(shape=(n,), name='ar_x%d' % t)
+        a = np.array([float(rng.randint(-2, 2)) for _ in range(n)])
+        kind = rng.choice(['norm', 'exp', 'abs', 'mixed'])
+        cons = []
+        if kind in ('norm', 'mixed'):
+            cons.append(cl.vector2norm(x - a) <= float(rng.choice([1, 2, 3])))
+        if kind in ('exp', 'mixed'):
+            cons.append(cl.weighted_sum_exp(np.ones(n), x) <= float(rng.choice([3, 5])))
+            cons.append(x >= -4)
+        if kind == 'abs':
+            cons.append(cl.sum(cl_abs(x - a)) <= float(rng.choice([1, 2])))
+        cvec = np.array([float(rng.choice([1, -1, 2])) for _ in range(n)])
+        rep = {'kind': kind, 'n': n, 'a': a.tolist(), 'c': cvec.tolist()}
+        ctx.case(dict(rep, stream='atom-roundtrip'), nontrivial=True)
+        ctx.count('stream:atom-roundtrip')
+        try:
+            prob = cl.Problem(cl.MAX, cvec @ x, cons)
+            st1, v1 = prob.solve(verbose=False)
+        except Exception as e:  # noqa: BLE001
+            bad.append(('building / solving a Problem with %s atoms raised %s' % (kind, type(e).__name__), rep))
+            continue
+        if st1 != 'solved':
+            ctx.incon('atom-roundtrip: status %s' % st1)
+            continue
+        ncols = prob.A.shape[1]
+        listed = sum(int(v.size) for v in prob.all_variables)
+        if listed != ncols:
+            bad.append(('a Problem with %s atoms has %d columns but its Variables account for %d components (an auxiliary Variable that owns '
+                        'columns is not listed)' % (kind, ncols, listed), rep))
+            continue
+        nanvars = [v.name for v in prob.all_variables if np.any(np.isnan(np.asarray(v.value, dtype=float)))]
+        if nanvars:
+            bad.append(('after a solved Problem with %s atoms the Variable %s still holds NaN' % (kind, nanvars[0][:30]), rep))
+            continue
+        try:
+            p2 = pickle.loads(pickle.dumps(prob))
+            p3 = cl.Problem(p2.objective_sense, p2.objective_expr, p2.constraints)
+            sig = lambda q: (tuple(q.A.shape), sorted(Counter((co.type, int(co.len)) for co in q.K).items()))  # noqa: E731
+            if sig(p3) != sig(prob):
+                bad.append(('a Problem with %s atoms rebuilt from its unpickled constraints compiles to %s, the original to %s' % (kind, sig(p3), sig(prob)), rep))
+                continue
+            st3, v3 = p3.solve(verbose=False)
+            if st3 != 'solved' or abs(float(v3) - float(v1)) > 1e-5 * max(1.0, abs(float(v1))):
+                bad.append(('a Problem with %s atoms solves to (%s, %.8g) after a pickle round trip, (%s, %.8g) before' % (kind, st3, v3, st1, v1), rep))
+        except Exception as e:  # noqa: BLE001
+            bad.append(('a Problem with %s atoms: pickle round trip + recompile raised %s: %s' % (kind, type(e).__name__, str(e)[:80]), rep))
+    return bad
+
+
 def _symmetric_values(seed):
     """a symmetric Variable next to an ordinary one: mirrored entries share a column, the columns are those of its own scalar ids,
     and after a solve the values land in the right object"""
@@ -497,6 +556,8 @@ def run(ctx):
     bseed, bcount = rng.randrange(1 << 30), 3 if quick else 20
     for what, rep in builder_names(ctx, random.Random(bseed), bcount):
         ctx.violation('names: ' + what, dict(rep, bseed=bseed, bcount=bcount))
+    for what, rep in atom_roundtrip_stream(ctx, rng, 8 if quick else 60):
+        ctx.violation('atoms: ' + what, rep)
     for what, rep in stored_values_stream(ctx, rng, 9 if quick else 60):
         ctx.violation('stored values: ' + what, rep)
     for what, rep in symmetric_stream(ctx, rng, 6 if quick else 60):
